@@ -30,6 +30,9 @@ func discCorpus() []caseT {
 		{Cfg: f[1], Prog: pr(th(dsc(2, 2, 0, 1)), th(df(1, 0, 0), df(2, 1, 1))), Note: "definitions arrive while the chain is walked"},
 		{Cfg: f[1], Prog: pr(th(df(2, 0, 0), dsc(2, 3, 0)), th(df(1, 0, 1), hs(2, 0))), Note: "a name of the child that the parent gets too"},
 		{Cfg: f[5], Prog: pr(th(df(1, 0, 0), dsc(1, 1, 0)), th(df(2, 0, 1), dsc(2, 3, 0))), Note: "siblings"},
+		// Discover of a FRESH file based loader (walks the path index, built on demand) next to HasEntry / Load; direct check only
+		{Cfg: f[2], Prog: pr(th(hs(1, 0)), th(dsc(1, 0, 0))), Note: "fresh file loader: HasEntry || Discover"},
+		{Cfg: f[4], Prog: pr(th(hs(2, 1)), th(dsc(2, 0, 0, 1)), th(ld(2, 0))), Note: "fresh file loader: HasEntry, Discover, Load"},
 	}
 }
 
